@@ -247,6 +247,16 @@ fn client(id: usize, seed: u64, ops: usize, start: &std::sync::Barrier) {
     // M195: rows interned in a process-wide list, slot remembered under the read lock and used
     // under the write lock). Then one lookup through the fresh provider.
     for round in 0..STORM_ROUNDS {
+        if round % 4 == 1 {
+            // ...and now and then a client first offers a file that no loader accepts (a saved
+            // error page): whatever a REFUSED load leaves behind (seeded change M212: a pool slot
+            // released twice on the refusal path) is there when the others load. Not judged.
+            let junk = format!("#\tnot a list\n<html>{id} {round}</html>\n2272060800\n");
+            hifitime::verif_seam::set_opener(Some(Box::new(move |_p| {
+                Ok(Box::new(Chunked { data: junk.clone().into_bytes(), pos: 0, chunk: usize::MAX, yield_at_eof: false }) as Box<dyn Read>)
+            })));
+            let _ = LeapSecondsFile::from_path("/mem/junk.list");
+        }
         let n = 2 + (id + round) % 3;
         let mine: Vec<(i128, u8)> = (0..n)
             .map(|j| (s1 + ((round * 3 + id) as i128) * 86_400 + (j as i128) * 31_536_000, 10 + j as u8))
